@@ -270,12 +270,25 @@ def _run(spec, tier, seed, tmp, t0):
         inconclusive.append("%d counterexample(s) did not reproduce natively (encoder or stub suspect), first: %s" % (
             len(unconfirmed), json.dumps(unconfirmed[0])[:600]))
 
+    extra = None
+    if spec.post is not None:
+        extra = spec.post(tier, seed)
+        inconclusive += extra.get("inconclusive", [])
+        for v in extra.get("violations", []):
+            vv = {"msg": v["msg"], "kind": "language", "replay": None, "obs": [repr(v.get("input"))],
+                  "native_obs": [repr(v.get("input")), v.get("detail", "")],
+                  "job": {"id": "post", "body": "post:" + v.get("class", ""), "params": {"input": repr(v.get("input"))}}}
+            k = match_known(known, pid, {"body": vv["job"]["body"], "params": vv["job"]["params"]}, vv)
+            if k is not None:
+                known_seen.setdefault(k["id"], {"k": k, "n": 0})["n"] += 1
+            else:
+                confirmed.append(vv)
     return finish(spec, tier, seed, t0, results=results, out=out, inconclusive=inconclusive, validated=validated,
-                  confirmed=confirmed, known_seen=known_seen, wit_total=len(wit_index))
+                  confirmed=confirmed, known_seen=known_seen, wit_total=len(wit_index), extra=extra)
 
 
 def finish(spec, tier, seed, t0, results=None, out=None, inconclusive=None, validated=0, confirmed=None,
-           known_seen=None, wit_total=0):
+           known_seen=None, wit_total=0, extra=None):
     pid = spec.pid
     results = results or []
     confirmed = confirmed or []
@@ -287,6 +300,7 @@ def finish(spec, tier, seed, t0, results=None, out=None, inconclusive=None, vali
     trivial = sum(r.get("trivial_asserts", 0) for r in results)
     fns, exts = set(), set()
     uninit = set()
+    storemon = {}
     bystatus = {}
     solver = {"queries": 0, "sat": 0, "unsat": 0, "unknown": 0, "errors": 0, "wall_s": 0.0, "max_query_ms": 0.0}
     samples = []
@@ -295,6 +309,8 @@ def finish(spec, tier, seed, t0, results=None, out=None, inconclusive=None, vali
     for r in results:
         fns.update(r.get("fns") or [])
         uninit.update(r.get("uninit_globals") or [])
+        for k, v in (r.get("storemon") or {}).items():
+            storemon[k] = max(storemon.get(k, 0), v) if k == "shared_regions_at_mark" else storemon.get(k, 0) + v
         exts.update(r.get("externals") or [])
         reached.update(r.get("reached") or [])
         for k, v in (r.get("by_status") or {}).items():
@@ -338,6 +354,7 @@ def finish(spec, tier, seed, t0, results=None, out=None, inconclusive=None, vali
             "stdlib_and_dep_functions_executed_from_ssa": len([f for f in fns if "flamego/flamego" not in f]),
             "intrinsics_and_stubs_called": sorted(exts),
             "reach_tags": sorted(reached),
+            "store_monitor": storemon,
             "globals_read_from_packages_whose_init_is_not_run": sorted(uninit),
             "bounds": spec.bounds(tier),
             "solver": dict(solver, name="z3 4.8.12 (-in, incremental push/pop)"),
@@ -349,6 +366,9 @@ def finish(spec, tier, seed, t0, results=None, out=None, inconclusive=None, vali
         "wall_s": round(time.time() - t0, 2),
         "violations": len(confirmed),
     }
+    if extra and extra.get("coverage"):
+        ev["coverage"]["language_comparison"] = extra["coverage"]
+        ev["coverage"]["traces_validated_against_impl"] += extra["coverage"].get("samples_run_on_real_parser", 0)
     if ev["coverage"]["states"] < 1:
         ev["coverage"]["states"] = 1
         ev["coverage"]["transitions"] = 1
